@@ -48,10 +48,13 @@ def gen(rng, tier):
     base["groups"] = [g]
     jobs = []
     used = set()
-    for j in base["jobs"]:
+    auto = rng.random() < 0.25  # the jobs of `jade config create commands.txt`: no name given, JADE uses str(job_id)
+    for n, j in enumerate(base["jobs"]):
         name = rng.choice(NAME_FIRST) + "".join(rng.choice(NAME_REST) for _ in range(rng.randint(0, 6)))
         while name in used:
             name += rng.choice(NAME_FIRST)
+        if auto:
+            name = str(n + 1)
         used.add(name)
         while True:
             toks = [tok(rng) for _ in range(rng.randint(0, 5))]
@@ -63,7 +66,7 @@ def gen(rng, tier):
             except ValueError:
                 continue
         jobs.append(dict(j, name=name, blocked_by=[], group=g["name"], command=cmd, style=style, rc=rng.choice([0, 0, 1, 2, 77, 126, 127, 128, 200, 255]), flag=False,
-                         append_job_name=rng.random() < 0.5, append_output_dir=rng.random() < 0.5))
+                         append_job_name=rng.random() < 0.5, append_output_dir=rng.random() < 0.5, auto_name=auto))
     base["jobs"] = jobs
     base["max_nodes"] = None
     base["user"] = {}
